@@ -5,6 +5,7 @@ static ALLOC: copia_simworld::alloc::Monitor = copia_simworld::alloc::Monitor;
 
 include!(concat!(env!("OUT_DIR"), "/copia_main_include.rs"));
 
+mod calib;
 mod checks;
 mod common;
 mod framework;
@@ -136,6 +137,12 @@ fn real_main(args: &[String]) -> i32 {
                 args[6].parse().unwrap_or(0),
             );
             0
+        }
+        Some("calib") => {
+            let n: u64 = args.get(2).and_then(|s| s.parse().ok()).unwrap_or(300);
+            let a = calib::calibrate(n, env_seed());
+            let b = calib::calibrate_fs(n * 4, env_seed());
+            a.max(b)
         }
         Some("selftest") => {
             let count: u64 = args.get(2).and_then(|s| s.parse().ok()).unwrap_or(500);
